@@ -3,6 +3,7 @@ package c18
 import (
 	"fmt"
 	"strings"
+	"sync"
 
 	"github.com/welllog/golib/algz"
 
@@ -635,11 +636,11 @@ func gen(r *core.Rand, tier string) core.Case {
 	if r.Chance(4) {
 		return genGraphHistory(r)
 	}
-	if (tier == "thorough" && r.Chance(2)) || (tier != "thorough" && r.Chance(10) && r.Chance(1)) {
+	if (tier == "thorough" && r.Chance(10) && r.Chance(2)) || (tier != "thorough" && r.Chance(10) && r.Chance(1)) {
 		return genHugeLimit(r)
 	}
 	// light share in quick (≈ 450 of 30000 cases), heavier in thorough / on anchor drift
-	if (tier == "thorough" && r.Chance(6)) || (tier != "thorough" && r.Chance(15) && r.Chance(10)) {
+	if (tier == "thorough" && r.Chance(2)) || (tier != "thorough" && r.Chance(15) && r.Chance(10)) {
 		return genLarge(r)
 	}
 	switch r.Pick(62, 8, 30) {
@@ -812,12 +813,16 @@ func exhaustiveItems(ctx *core.Ctx) (int, string, []core.ExtraFailure) {
 		maxN = 5
 	}
 	brks := []string{"nil", "t", "f", "h1", "lt", "gt"}
+	// one goroutine per first item (the enumeration is otherwise serial and dominates the wall
+	// time of a quick run on a busy machine)
+	var mu sync.Mutex
 	evals := 0
 	var fails []core.ExtraFailure
-	var rec func(cur []int)
-	rec = func(cur []int) {
-		if len(fails) > 0 {
-			return
+	failed := func() bool { mu.Lock(); defer mu.Unlock(); return len(fails) > 0 }
+	// visit evaluates one item list; walk visits it and everything below it
+	visit := func(cur []int) bool {
+		if failed() {
+			return false
 		}
 		var sb strings.Builder
 		sb.WriteString("@ C18 dp")
@@ -837,18 +842,39 @@ func exhaustiveItems(ctx *core.Ctx) (int, string, []core.ExtraFailure) {
 		}
 		c := core.Case{Lines: lines}
 		out := impl(c)
+		f := check(c, out)
+		mu.Lock()
 		evals += len(lines) - 1
-		if f := check(c, out); f != nil {
+		if f != nil && len(fails) == 0 {
 			fails = append(fails, core.ExtraFailure{Failure: *f, Payload: c})
+		}
+		mu.Unlock()
+		return f == nil
+	}
+	var walk func(cur []int)
+	walk = func(cur []int) {
+		if !visit(cur) {
 			return
 		}
 		if len(cur) < maxN {
 			for a := range alpha {
-				rec(append(cur, a))
+				walk(append(append([]int{}, cur...), a))
 			}
 		}
 	}
-	rec(nil)
+	var wg sync.WaitGroup
+	if visit(nil) {
+		for a := range alpha {
+			if !visit([]int{a}) {
+				continue
+			}
+			for b := range alpha {
+				wg.Add(1)
+				go func(a, b int) { defer wg.Done(); walk([]int{a, b}) }(a, b)
+			}
+		}
+	}
+	wg.Wait()
 	return evals, fmt.Sprintf("every item list of length ≤ %d over %d (weight,value) pairs, limits 0..8, 5 tie-breakers: Knapsack and FindDpSolvers/Best/BestAllowMinOverflow = brute force over all subsets", maxN, len(alpha)), fails
 }
 
